@@ -94,7 +94,11 @@ func c15attr(r *gen.R, key string, depth int) (stdslog.Attr, gen.KV) {
 		var as []any
 		g := gen.V{Kind: "group"}
 		for i := 0; i < n; i++ {
-			a, kv := c15attr(r, fmt.Sprintf("%sm%d", key, i), depth+1)
+			mk := fmt.Sprintf("%sm%d", key, i)
+			if r.P(12) {
+				mk = key + "." + fmt.Sprintf("m%d", i) // a member whose own key starts with the group's path and a dot
+			}
+			a, kv := c15attr(r, mk, depth+1)
 			as = append(as, a)
 			g.Items = append(g.Items, kv)
 		}
